@@ -207,3 +207,53 @@ def mismatches(cons, prod, maxlen=3, limit=6):
             if len(bad) >= limit:
                 return bad
     return bad
+
+
+def stored_tag(unit, loop, tid, vid, kind):
+    """the character the filling loop stores into the type string for an argument value of kind `kind` (None: none)"""
+    if loop.get("kind") == "ForStmt":
+        body = loop.get("inner", [])[4]
+    elif loop.get("kind") == "DoStmt":
+        body = A.kids(loop)[0]
+    else:
+        body = A.kids(loop)[-1]
+    got = []
+
+    def hook(n, ev):
+        k = n.get("kind")
+        if k == "MemberExpr":
+            nm = n.get("name")
+            if nm == "type":
+                return ord(kind)
+            if nm in ("val", "i", "f", "s", "b", "h", "d", "T", "m"):
+                return 777
+            return NotImplemented
+        lhs, rhs = _assign_sides(n)
+        if lhs is not None:
+            l = A.strip_casts(lhs)
+            if l.get("kind") == "ArraySubscriptExpr" and A.ref_id(A.kids(l)[0]) in (tid, vid):
+                v = ev.ev(rhs)
+                if A.ref_id(A.kids(l)[0]) == tid:
+                    got.append(v)
+                return 0
+            if l.get("kind") == "DeclRefExpr":
+                ev.ev(rhs)
+                ev.env[l["referencedDecl"]["id"]] = 555
+                return 555
+        if k == "CallExpr":
+            fns_ = [f_ for f_ in unit.functions.get(A.callee_name(n) or "", []) if unit.body(f_) is not None]
+            if len(fns_) == 1:
+                return ev.call_function(unit, fns_[0], [ev.ev(a_) for a_ in A.kids(n)[1:]])
+        if k in ("CallExpr", "CXXMemberCallExpr", "CXXOperatorCallExpr"):
+            return 555
+        if k == "DeclRefExpr" and (n.get("referencedDecl") or {}).get("id") not in ev.env and FD.ctype(A.qtype(n))[0] == "int":
+            return 0
+        return NotImplemented
+    ev = FD.Eval(node_hook=hook, max_steps=4000)
+    try:
+        ev.run(body)
+    except (FD._Continue, FD._Break, FD._Return):
+        pass
+    except FD.Unknown as e:
+        raise AnalysisBroken("ARG-SLOTS: loop at %s not evaluable for kind '%s': %s" % (A.where(loop), kind, e))
+    return [chr(v) if isinstance(v, int) and 0 < v < 128 else v for v in got]
